@@ -68,9 +68,11 @@ def run(F, R):
         R.check("C16-R2", "two-branches-one-parser", len(fs) in (1, 2) and len(set(tuple(t.get("substs", [])) for _, t in fs)) == 1, "every branch parses with serde_json::from_slice::<T>", "parser calls: %s" % [lib.norm(t.get("callee")) for _, t in ps.calls()])
         # what the parser is fed: the raw input, or the input after the prefix
         fed = set()
+        from .. import optnorm
         for _, t in fs:
-            for a_ in lib.alts(ps.trace_op(t["args"][0])):
-                fed.add(terms.render(ps, a_, W, {1: "raw"}))
+            for kind_, a_ in optnorm.value_alts(W, ps, ps.trace_op(t["args"][0])):
+                r_ = terms.render(ps, a_, W, {1: "raw"})
+                fed.add(r_ + "@Some.0" if kind_ == "payload" and not r_.endswith("@Some.0") else r_)
         sw = [(a, b, tr) for (a, b, tr) in ps.bool_edges(lambda t: t[0] == "call" and t[1].endswith("::starts_with"))]
         sp = [t for _, t in ps.calls() if lib.norm(t.get("callee") or "").endswith("::strip_prefix")]
         pref = None
